@@ -382,11 +382,12 @@ func (rl *respDeserializer) peekBulkLine(length int) (line respBulkString, valid
 		panic("already determined the next line")
 	}
 
-	rl.nextPos = rl.pos + length + 2
-	if rl.nextPos > len(rl.content) {
+	if length < 0 || length > len(rl.content)-rl.pos-2 {
+		// not all there yet (compared this way round so that an absurd declared length cannot overflow)
 		valid = false
 		return
 	}
+	rl.nextPos = rl.pos + length + 2
 
 	if rl.content[rl.nextPos-2] != '\r' || rl.content[rl.nextPos-1] != '\n' {
 		rl.l.Errorf("bulk line does not have expected ending on line %d", rl.lineNumber)
@@ -405,6 +406,11 @@ func (rl *respDeserializer) getCount(line string) (value int, valid bool) {
 		return
 	}
 	value = int(count64)
+	if value > len(rl.content) {
+		// a count or length larger than everything received so far cannot be satisfied
+		// yet; refusing it here keeps a hostile header from sizing an allocation
+		return 0, false
+	}
 	return
 }
 
